@@ -80,6 +80,7 @@ def cases(tier, seed):
         out.append(('tiled', rot))
     out.append(('invalid',))
     out.append(('scalar',))
+    out.append(('dtypes',))
     return out
 
 
@@ -177,6 +178,33 @@ def run_case(case):
         r.hit('tiled')
         r['sample'] = {'composition': 'tiled', 'rotation': rot, 'lengths': [1, 2, 3, 10, 100, 1000]}
         return r
+    if kind == 'dtypes':
+        # brackets handed over as integer or float32 arrays (valid element-wise brackets with integer end points)
+        from copulas.optimize import bisect, chandrupatla
+        lanes = [l for l in LANES if l[2] != (2.0, 2.5) and 0 < l[3] < 1 and l[1] in (1e-3, 1.0, 1e3)]
+        f, a, b, root, w = make_f(lanes)
+        for dt in (np.int64, np.int32, np.float32):
+            for solver, fn in (('bisect', bisect), ('chandrupatla', chandrupatla)):
+                r.tr()
+                r.ev(len(lanes))
+                try:
+                    x = np.asarray(fn(f, a.astype(dt), b.astype(dt)), float)
+                except Exception as e:
+                    r.violation(f'C18:{solver}:raises:{type(e).__name__}', f'{solver} raised {type(e).__name__}: {e} for brackets '
+                                f'given as {np.dtype(dt).name} arrays', case=case)
+                    continue
+                tol = (1e-8 if solver == 'bisect' else 1e-9 * w) + (1e-6 * np.maximum(1, np.abs(root)) if dt == np.float32 else 0)
+                with np.errstate(all='ignore'):
+                    ok = (np.abs(x - root) <= tol) | ((solver == 'chandrupatla') & (f(x) == 0))
+                if not ok.all():
+                    i = int(np.nonzero(~ok)[0][0])
+                    r.violation(f'C18:{solver}:wrong-root:bracket-dtype', f'{solver}: lane {lanes[i]} with brackets given as '
+                                f'{np.dtype(dt).name} arrays returned {x[i]!r}, root is {root[i]!r}', case=case)
+                r.state((solver, 'dtype', np.dtype(dt).name))
+        r.nontriv(6)
+        r.hit('dtypes')
+        r['sample'] = {'composition': 'bracket dtypes', 'dtypes': ['int64', 'int32', 'float32'], 'lanes': len(lanes)}
+        return r
     if kind == 'scalar':
         for k, lane in enumerate(LANES):
             x = check('chandrupatla', [lane], lambda i: 'scalar input', scalar=True)
@@ -241,5 +269,5 @@ def finish(agg, tier):
     engine.require(agg['hits'].get('solo', 0) == len(LANES), 'solo lanes not exhausted')
     engine.require(agg['hits'].get('pairs', 0) >= 3600, 'pairs not exhausted')
     engine.require(agg['hits'].get('invalid', 0) >= 2000, 'invalid brackets under-explored')
-    for k in ('full', 'tiled', 'scalar'):
+    for k in ('full', 'tiled', 'scalar', 'dtypes'):
         engine.require(agg['hits'].get(k, 0) >= 1, f'{k} missing')
